@@ -412,7 +412,20 @@ def X13(ctx: Ctx, mode: str = 'access') -> RuleResult:
         body = [st for st in f.node.body if not (isinstance(st, ast.Expr) and isinstance(st.value, ast.Constant))]
         if len(body) == 1 and isinstance(body[0], ast.Return):
             return default_inline(f, d)
-        return f.node.returns is not None and ast.unparse(f.node.returns) == 'bool' and default_inline(f, d)
+        if f.node.returns is not None and ast.unparse(f.node.returns) == 'bool' and default_inline(f, d):
+            return True
+        # a small method of a module-private class (a record of the values one function works with): its objects exist
+        # only inside the functions that build them, and what it may assume about its arguments is what those establish
+        if _private_helper(f) and d <= 3:
+            looked_through.add(f.key)
+            return True
+        return False
+    looked_through: Set[str] = set()
+
+    def _private_helper(f: FunctionInfo) -> bool:
+        return f.cls is not None and f.cls.name.startswith('_') and f.kind == 'method' and not f.name.startswith('__') \
+            and not any(isinstance(x, (ast.While, ast.For, ast.With, ast.Try, ast.Yield, ast.YieldFrom)) for x in ast.walk(f.node)) \
+            and sum(1 for x in ast.walk(f.node) if isinstance(x, ast.stmt)) <= 10
     ev = Evaluator(m, inline=pol)
 
     def defines(cls, attr: str) -> bool:
@@ -573,8 +586,11 @@ def X13(ctx: Ctx, mode: str = 'access') -> RuleResult:
         for ch in children(t):
             check(ch, facts, fi, line)
     n = 0
-    for fi in m.all_functions():
+    # helpers of private classes come last: one that was looked through at its call sites has been judged there
+    for fi in sorted(m.all_functions(), key=_private_helper):
         if fi.module.name.endswith('_unused'):
+            continue
+        if _private_helper(fi) and fi.key in looked_through:
             continue
         args = {}
         for a_ in fi.node.args.args + fi.node.args.kwonlyargs:
